@@ -184,6 +184,23 @@ def grid_obs(SA):
     return obs
 
 
+def _zero_atoms(r):
+    """atoms that the path established to be zero (a decided `x == 0` / `not x != 0` on a single-term quantity)"""
+    out = set()
+    for ent in r.facts.signs:
+        if not ent[1] <= {"0"}:
+            continue
+        e = ent[0].expand()
+        if len(e.n) != 1:
+            continue
+        (mono, c), = e.n.items()
+        # a factor that occurs with a negative power (a denominator) or is flagged positive cannot be the vanishing one
+        cand = [a for a, p in mono if not a.pos and a.kind != "base" and not (isinstance(p, int) and p < 0)]
+        if len(cand) == 1:
+            out.add(cand[0])
+    return out
+
+
 def path_uniformity(SA):
     """Rules are evaluated on one representative path per (clamp outcome, shift) case.  Any further
     case distinction made by the code must not change the result: all return paths of a case must
@@ -206,9 +223,14 @@ def path_uniformity(SA):
             for w in vs[1:]:
                 same = True
                 why = None
+                zero = _zero_atoms(ref.r) | _zero_atoms(w.r)
+                zsub = {a: ZERO for a in zero}
                 for nm in ("conc", "flx"):
                     a, b = ref.coeff(nm), w.coeff(nm)
                     if isinstance(a, Expr) and isinstance(b, Expr):
+                        if zsub:
+                            # where one path established that a quantity vanishes, the two sides need only agree there
+                            a, b = a.expand().subs(zsub), b.expand().subs(zsub)
                         if not a.eq(b):
                             same, why = False, "%s coefficient differs" % nm
                     elif not (a is b or repr(a) == repr(b)):
@@ -677,6 +699,8 @@ def check_C04(P, tier, SA, holder):
                     bad = []
                     for ent in v.r.facts.signs:
                         ats = ent[0].atoms()
+                        if ent[1] <= {"0"} or ent[1] == {"+", "-"}:
+                            continue  # a test against zero: compatible with linearity iff both sides agree at zero, which R-PATHS decides
                         if bg in ats or any(a.kind == "fn" and (a.name in ("dft", "dft0") or (a.name in ("elem", "at", "sum", "abs", "max", "min") and a.args and isinstance(a.args[0], Expr) and atom_of(S.srf_flx.sym) in a.args[0].atoms())) for a in ats):
                             bad.append(repr(ent[0])[:120])
                     R.add(req_ob("R-LIN", site, "no branch or mask on this path is decided by the values of the sources", not bad, detail="; ".join(bad[:3]) or None, key={"clause": "control"}))
